@@ -872,9 +872,12 @@ func (s *Server) SetReplicationConfig(cfg config.ReplicationConfig) error {
 	}
 
 	if rule != nil {
-		rule.Count = int(cfg.MaxReplicas)
-		rule.LocationLabels = cfg.LocationLabels
-		if err := s.GetRaftCluster().GetRuleManager().SetRule(rule); err != nil {
+		// rule is the object served by the rule manager: update a copy so that the
+		// change is seen (and persisted) by SetRule and a failure leaves it untouched.
+		newRule := *rule
+		newRule.Count = int(cfg.MaxReplicas)
+		newRule.LocationLabels = cfg.LocationLabels
+		if err := s.GetRaftCluster().GetRuleManager().SetRule(&newRule); err != nil {
 			log.Error("failed to update rule count",
 				errs.ZapError(err))
 			return err
@@ -885,7 +888,6 @@ func (s *Server) SetReplicationConfig(cfg config.ReplicationConfig) error {
 	if err := s.persistOptions.Persist(s.storage); err != nil {
 		s.persistOptions.SetReplicationConfig(old)
 		if rule != nil {
-			rule.Count = int(old.MaxReplicas)
 			if e := s.GetRaftCluster().GetRuleManager().SetRule(rule); e != nil {
 				log.Error("failed to roll back count of rule when update replication config", errs.ZapError(e))
 			}
